@@ -318,7 +318,8 @@ def build(tier):
     targets += linear_spec.targets()
     import predict_spec
     targets += predict_spec.targets(tier)
-    vcs = []
+    import average_smt
+    vcs = average_smt.vcs()
     if tier == 'thorough':
         vcs += predict_spec.c13_stats_vcs()
     return {
